@@ -11,8 +11,8 @@ CONSTANTS
   MsgKinds <- mcMsgKinds
   BatchMax = 2
   MaxMsgs = 9
-  MaxTopics = 5
-  MaxSubs = 8
+  MaxTopics = 9
+  MaxSubs = 12
   MaxDels = 40
   MaxTime = 100000
   TickDs <- mcTickDs
@@ -24,9 +24,10 @@ CONSTANTS
   Ops <- mcOps
   Setup <- mcSetup
   ProjOfName <- mcProjOfName
-  Depth = 32
+  Depth = 36
   AttBound = 100
   ViewKeep = {}
+  RealBackoff = FALSE
   GenBFS = FALSE
   AckAll = FALSE
   Weights <- mcWeights
